@@ -18,7 +18,7 @@ FUNCTIONS = [
     "cnvlib.vary.VariantArray.baf_by_ranges/heterozygous/mirrored_baf/tumor_boost/zygosity_from_freq, _mirrored_baf, _tumor_boost; cnvlib.call.rescale_baf; skgenome.intersect.into_ranges",
 ]
 BOUNDS = {
-    "records": "2 biallelic records (3 thorough) in either file order; start, DP, AD counts, min_depth symbolic; genotype, missing keys (DP / AD), SOMATIC flag, SNV / insertion / symbolic allele with END solver-chosen",
+    "records": "2 biallelic records (3 thorough) in either file order; start, DP, AD counts, min_depth symbolic; genotype, missing keys (DP / AD; also missing in one record only), SOMATIC flag, SNV / insertion / symbolic allele with END solver-chosen",
     "samples": "1 sample, or tumour + normal with and without a PEDIGREE header, every selector in {None, names, indices}",
     "call": "do_call with variants on 2 adjacent segments that a ci / sem filter merges (3 heterozygous variants with symbolic frequencies)",
     "BAF": "3 variants with symbolic frequencies in [0,1] and solver-chosen zygosities inside / outside 2 ranges; TumorBoost and purity formulas with symbolic frequencies (n_freq in (0,1))",
@@ -103,6 +103,8 @@ def make_record(ctx, k, chrom, sample_names, som_choices=(False, True), fields="
             d["AD"] = (ad_ref, ad_alt)
         samples[nm] = d
         depth = dp if "DP" in fields else ((ad_ref + ad_alt) if "AD" in fields else idp)
+        if depth is None:
+            depth = 0  # nothing states a depth: reported as 0, and 0 meets no positive minimum depth
         # _safesum drops zero counts, which does not change the sum
         alt = ad_alt if "AD" in fields else None
         zyg = 0.5 if len(set(gt)) > 1 else (0.0 if gt[0] == 0 else 1.0)
@@ -114,7 +116,9 @@ def h_rows(ctx, sample_names, pedigree, sel, normal_sel, order, skip_somatic, n=
     chroms = ["chr1", "chr1", "chr2"][:n]
     recs, exps = [], []
     for k in range(n):
-        r, e = make_record(ctx, k, chroms[k], sample_names, fields=fields, rich=(k == 0), plain_numbers=plain, info_dp=info_dp)
+        # `fields` may differ per record (a list): DP/AD partly missing within one file
+        fk = fields[k] if isinstance(fields, (list, tuple)) else fields
+        r, e = make_record(ctx, k, chroms[k], sample_names, fields=fk, rich=(k == 0), plain_numbers=plain, info_dp=info_dp)
         recs.append(r)
         exps.append(e)
     for i in range(n):
@@ -376,6 +380,10 @@ def _rows_cfgs():
         for fields in ("DP+AD", "AD", "DP"):
             out.append({"sample_names": ["S"], "pedigree": None, "sel": None, "normal_sel": None, "order": order, "skip_somatic": False, "fields": fields})
     out.append({"sample_names": ["S"], "pedigree": None, "sel": None, "normal_sel": None, "order": [0, 1], "skip_somatic": True})
+    # DP/AD partly missing: one record states its depth, the other has a genotype only
+    out.append({"sample_names": ["S"], "pedigree": None, "sel": None, "normal_sel": None, "order": [0, 1], "skip_somatic": False, "fields": ["DP+AD", "GT"]})
+    out.append({"sample_names": ["S"], "pedigree": None, "sel": None, "normal_sel": None, "order": [1, 0], "skip_somatic": False, "fields": ["GT", "AD"]})
+    out.append({"sample_names": ["T", "N"], "pedigree": None, "sel": "T", "normal_sel": "N", "order": [0, 1], "skip_somatic": False, "fields": ["DP", "GT"]})
     # INFO/DP present: it is used only when the sample has neither DP nor AD
     out.append({"sample_names": ["S"], "pedigree": None, "sel": None, "normal_sel": None, "order": [0, 1], "skip_somatic": False, "fields": "AD", "info_dp": True})
     out.append({"sample_names": ["S"], "pedigree": None, "sel": None, "normal_sel": None, "order": [1, 0], "skip_somatic": False, "fields": "GT", "info_dp": True})
